@@ -386,6 +386,7 @@ func runC02(c *Ctx) {
 		var per [][]*com.Packet
 		var origs []frozen
 		gids := map[uint16]int{}
+		var jobsOf []uint16
 		for gi := 0; gi < ng; gi++ {
 			p := genBigPacket(r, F, dev)
 			p.Job = uint16(100 + gi) // distinct jobs: the groups are independent packets
@@ -417,6 +418,18 @@ func runC02(c *Ctx) {
 				return
 			}
 			gids[frs[0].Flags.Group()] = gi
+			// the Job the fragments carry: the packet's own, or the one write drew for a packet queued
+			// without a Job number. Delivered packets are attributed to their group by this number, so a
+			// drawn number that equals another group's (1 in 65536) would mis-attribute: such a case is
+			// outside what this group can judge and is skipped (a false alarm of exactly this kind was seen
+			// once in a thorough run: B.1)
+			for _, j := range jobsOf {
+				if j == frs[0].Job {
+					c.Count("senddrop:drawn-job-collides(skipped)")
+					return
+				}
+			}
+			jobsOf = append(jobsOf, frs[0].Job)
 			per = append(per, frs)
 		}
 		// queue order: group after group, or interleaved keeping each group's own order
@@ -491,7 +504,7 @@ func runC02(c *Ctx) {
 			}
 			for _, v := range msgr.Evs[before:] {
 				for gi := range origs {
-					if v.Job == origs[gi].p.Job || (origs[gi].p.Job == 0 && v.ID == origs[gi].p.ID && v.Job != 101 && v.Job != 102 && v.Job != 1 && len(v.Payload()) == len(origs[gi].pay)) {
+					if v.Job == jobsOf[gi] {
 						delivered[gi]++
 						deliveredPk = append(deliveredPk, v)
 						if d := eqFrozen(origs[gi], v); d != "" && d != "flags" && d != "tags" && d != "tagcount" && !(d == "job" && origs[gi].p.Job == 0 && v.Job != 0) {
